@@ -9,6 +9,9 @@ fn ts<T: ToTokens>(t: &T) -> String {
 fn line<T: Spanned>(t: &T) -> usize {
     t.span().start().line
 }
+fn end_line<T: Spanned>(t: &T) -> usize {
+    t.span().end().line
+}
 fn cfgs(attrs: &[syn::Attribute]) -> Value {
     let v: Vec<Value> = attrs
         .iter()
@@ -150,11 +153,11 @@ fn fields(f: &syn::Fields) -> Value {
 }
 fn item(i: &syn::Item) -> Value {
     match i {
-        syn::Item::Fn(f) => json!({"k":"fn","line": line(f), "cfg": cfgs(&f.attrs), "sig": sig(&f.sig), "body": block(&f.block)}),
+        syn::Item::Fn(f) => json!({"k":"fn","line": line(f), "end_line": end_line(f), "cfg": cfgs(&f.attrs), "sig": sig(&f.sig), "body": block(&f.block)}),
         syn::Item::Impl(im) => json!({"k":"impl","line": line(im), "cfg": cfgs(&im.attrs), "self_ty": ts(&im.self_ty).replace(' ', ""),
             "trait": im.trait_.as_ref().map(|(_, p, _)| ts(p).replace(' ', "")),
             "items": im.items.iter().filter_map(|it| match it {
-                syn::ImplItem::Fn(m) => Some(json!({"k":"fn","line": line(m), "cfg": cfgs(&m.attrs), "sig": sig(&m.sig), "body": block(&m.block)})),
+                syn::ImplItem::Fn(m) => Some(json!({"k":"fn","line": line(m), "end_line": end_line(m), "cfg": cfgs(&m.attrs), "sig": sig(&m.sig), "body": block(&m.block)})),
                 syn::ImplItem::Const(c) => Some(json!({"k":"const","name": c.ident.to_string(), "ty": ts(&c.ty), "e": expr(&c.expr)})),
                 _ => None }).collect::<Vec<_>>()}),
         syn::Item::Struct(s) => json!({"k":"struct","line": line(s), "cfg": cfgs(&s.attrs), "name": s.ident.to_string(), "fields": fields(&s.fields)}),
